@@ -12,7 +12,11 @@
    sqlite trust DB with a scripted remote serving real signed TRCs (genuine chains a/b, missing vote,
    unknown signers, wrong serial, stale, other base, other ISD, injected insert failure) and on the
    real LoadTRCs with files in a temporary directory; after every call it records the stored TRCs.
-4. TLC (spec/TrustStoreTrace.tla) checks conformance with TrustStoreOps (NotifyResult / LoadResult).
+   In addition it runs seeded histories of 2-3 simultaneous NotifyTRC calls (goroutines, own scripted
+   remotes) on one database and records what each call returned and the final store.
+4. TLC (spec/TrustStoreTrace.tla) checks conformance with TrustStoreOps (NotifyResult / LoadResult);
+   for the simultaneous calls it checks what must hold for every interleaving (unbroken succession,
+   only served verifiable successors stored, consecutive fetches, no step after a failure).
 """
 import _pki
 import vlib
@@ -34,7 +38,8 @@ def run(c):
         c._addcmd("tlc " + g.cmd)
         scn = c.scratch + "/scn.ndjson"
         _pki.write_lines(scn, cases)
-        c.run_driver(drv, ["-mode", "notify", "-scn", scn, "-out", trace], timeout=2400)
+        c.run_driver(drv, ["-mode", "notify", "-scn", scn, "-out", trace, "-conc", 1500 if c.thorough else 150],
+                     timeout=2400)
     r = c.validate("TrustStoreTrace", "TrustStoreTrace.cfg", trace, timeout=2400)
     c.judge_trace(r, trace)
     if not c.replay:
@@ -46,9 +51,10 @@ def run(c):
         ntr += 1
         evs += len(t) - 1
         # non-trivial: some call fetched at least one TRC or loaded files
-        if any((e["ev"] == "notify" and e["fetched"]) or e["ev"] == "load" for e in t):
+        if any((e["ev"] == "notify" and e["fetched"]) or e["ev"] in ("load", "concurrent") for e in t):
             shapes.add(str([(t[0]["init"],)] + [(e["ev"], e.get("isd"), e.get("base"), e.get("serial"),
-                                                 e.get("outc"), e.get("files")) for e in t[1:]]))
+                                                 e.get("outc"), e.get("files"),
+                                                 [(k["serial"], k["outc"]) for k in e.get("calls", [])]) for e in t[1:]]))
     c.cov["traces_validated_against_impl"] += ntr
     c.cov["evaluations"] += evs
     c.cov["distinct_nontrivial"] += len(shapes)
@@ -61,6 +67,7 @@ def run(c):
     c.cov["stopped"] = r.stats.get("stopped", 0)
     c.sample_trace(trace, nevents=6)
     c.assumptions += [
-        "the implementation side is exercised sequentially; concurrent callers are explored in the model only",
+        "all interleavings of concurrent callers are explored in the model only; on the implementation side "
+        "simultaneous calls are sampled (seeded) and judged by interleaving-independent conditions",
         "remote misbehaviour is limited to the ten outcome kinds of TrustStoreOps",
         "real-time distances: TRC validity boundaries are >= 2 days from the wall clock"]
